@@ -139,6 +139,14 @@ CHECKS = {
             'by field.',
             'Trusts vf/oracle_c11_sig.py (own matcher/unifier on shadow types).',
             'DESIGN.md 2 C11'),
+    'C04': ('instance-level wrappers on eval of all registered macros; for sampled, de-duplicated observed tuples the monitor asks '
+            'the real checker to expand the macro in place (same theory/context) and compares the established sequent with the '
+            'evaluated one; memo-history workload for the auto macro',
+            'Exploration: tuples observed while replaying recorded library proofs (15+ macro families per quick run), mutations of '
+            'them (premise dropped / permuted / duplicated) that eval still accepts, generated imp_conj / imp_disj goals; an '
+            'expansion that is produced must be accepted at check_level 0, prove the same conclusion and need no extra hypotheses.',
+            'An expansion that raises counts as "no expansion produced" (statement is conditional on the expansion being produced).',
+            'DESIGN.md 2 C04'),
 }
 
 NOT_YET = {}
